@@ -86,7 +86,7 @@ def relational(cases, impl):
 
 def cases(tier, rng, ifaces):
     out = []
-    names = ['echo', 'echo', 'echo', 't1', 'a1', 'a1'] + sorted(n for n in ifaces if n.startswith('r'))
+    names = ['echo', 'echo', 'echo', 't1', 'a1', 'a1', 'g1'] + sorted(n for n in ifaces if n.startswith('r'))
     n = 250 if tier == 'quick' else 3000
     for g in range(n):
         iface = ifaces[rng.choice(names)]
